@@ -172,3 +172,24 @@ Proof.
     destruct w as [|w]; cbn in W; [inversion W; reflexivity|destruct w; discriminate].
   - eexists. repeat split; reflexivity.
 Qed.
+
+(* ---------- no worker waits for another worker ---------- *)
+(* The move a worker is waiting to make is enabled by its own state alone, whatever the other
+   workers of the command are doing: registering and sending (WInit), the return of SendFunc
+   (WReg), its own timer (WWait), its clean-ups. *)
+Lemma worker_moves_independent st k w ws t :
+  s_cur st = Some k -> nth_error (k_workers k) w = Some ws ->
+  nth_error (c_targets (k_cmd k)) w = Some t ->
+  match ws with
+  | WInit => enabled st (LRegister w) = true
+  | WReg _ => enabled st (LSendOk (c_id (k_cmd k)) w) = true /\
+              enabled st (LSendErr (c_id (k_cmd k)) w) = true
+  | WWait _ => enabled st (LTimeout (c_id (k_cmd k)) w) = true
+  | WFail _ => enabled st (LFailCleanup w) = true
+  | WTimedOut _ => enabled st (LTimeoutCleanup w) = true
+  | WFin => True
+  end.
+Proof.
+  intros C W T. unfold enabled. destruct ws; cbn [step_opt];
+    rewrite ?(worker_at_intro _ _ _ _ _ C W T), ?N.eqb_refl; try split; try reflexivity; exact I.
+Qed.
